@@ -4,7 +4,8 @@
 # of the property it breaks (first entry of checks_run_against_it; pass ALL=1 for all listed),
 # undoes the change, and writes seeded/RESULTS.md.
 set -u
-cd /verif || exit 2
+cd "$(dirname "$0")/.." || exit 2
+REPO="${SWEEP_REPO:-/repo}"
 OUT=seeded/RESULTS.md
 echo "# Seeded changes vs. the quick checks (written by tools/seeded_sweep.sh)" > $OUT
 echo "" >> $OUT
@@ -14,15 +15,15 @@ for d in seeded/${1:-}*/; do
   id=$(basename "$d")
   [ -f "$d/patch.diff" ] || continue
   checks=$(python3 -c "import json,os;m=json.load(open('$d/meta.json'));c=m['checks_run_against_it'];print(' '.join(c if os.environ.get('ALL') else c[:1]))")
-  if [ -n "$(git -C /repo status --porcelain --untracked-files=no)" ]; then echo "/repo not clean"; exit 2; fi
-  git -C /repo apply "$d/patch.diff" || { echo "| $id | - | patch does not apply | |" >> $OUT; continue; }
+  if [ -n "$(git -C "$REPO" status --porcelain --untracked-files=no)" ]; then echo "/repo not clean"; exit 2; fi
+  git -C "$REPO" apply "$d/patch.diff" || { echo "| $id | - | patch does not apply | |" >> $OUT; continue; }
   for P in $checks; do
     R=$(./check "$P" quick 2>&1); RC=$?
     clause=$(echo "$R" | grep -a "^violation" | head -1 | sed 's/^violation: //' | cut -c1-110 | tr '|' '/')
     echo "| $id | $P | $RC | $clause |" >> $OUT
     echo "$id $P exit=$RC"
   done
-  git -C /repo checkout -- .
+  git -C "$REPO" checkout -- .
   rm -f replays/*.trace
 done
 git checkout -- evidence 2>/dev/null
